@@ -129,14 +129,19 @@ def r01_3(facts, res):
     for n in walk(f["body"]):
         if n.get("k") == "Match" and n.get("src") == "ForLoop":
             # loop body block: statements in order
+            # the block of the loop over content cells: the first statement that reads `cell.child` comes before the first
+            # one that reads `cell.tail` (whatever the form: if-let, match, or a helper that is handed the field)
             for b in walk(n):
                 if b.get("k") == "Block":
                     kinds = []
                     for s in b.get("stmts", []) + ([{"e": b["expr"]}] if "expr" in b else []):
-                        e = s.get("e") or {}
-                        if e.get("k") == "Match" and "Contents" in str(e.get("scrutty", "")):
+                        e = s.get("e") or s.get("init") or {}
+                        fields = {m.get("name") for m in walk(e) if m.get("k") == "Field" and "Content" in str(m.get("basety", ""))}
+                        if "child" in fields and "tail" in fields:
+                            kinds.append("both")        # an enclosing block: look at the inner one
+                        elif "child" in fields:
                             kinds.append("child")
-                        if e.get("k") == "If" and any(m.get("name") == "tail" for m in walk(e["cond"])):
+                        elif "tail" in fields:
                             kinds.append("tail")
                     if kinds == ["child", "tail"]:
                         ok = True
